@@ -42,6 +42,8 @@ func C01Offered(sets string) []int {
 		return []int{0}
 	case "both123":
 		return []int{1, 2, 3}
+	case "versioned8_10":
+		return []int{8, 10}
 	}
 	return nil
 }
